@@ -7,6 +7,7 @@ import GqlModel.Parser.Core
   selection) are tied by *one* fuelled function each (`parseValueLiteral`, `parseTypeReference`,
   `parseSelection`); the other members of a cycle take the recursive callee as a parameter
   (`pv`, `sel`), so one unit of fuel is spent per recursion cycle and one per loop iteration.
+  At fuel `n + 1` the recursive callee gets `n`, every loop of the same level gets `n + 1`.
   Go closures that append to a captured slice become programs that return the list.
 -/
 namespace Gql.Parser
@@ -56,18 +57,20 @@ def parseObjectWith (pv : Prog Value) (n : Nat) : Prog Value := do
   let fs ← pMany .braceL .braceR n (parseObjectFieldWith pv)
   pure (.mk .object [] (Children.ofList fs) pos)
 
+/-- the tail of `parseValueLiteral` for scalar literals: `p.next(); return &Value{…}` -/
+def litValue (src : Nat) (token : Token) (kind : ValueKind) : Prog Value := do
+  let _ ← next
+  pure (.mk kind token.value .nil (posOf src token))
+
 /-- `parseValueLiteral` (a `nil` result — only with the error set — is `default`) -/
 def parseValueLiteral : Nat → Bool → Prog Value
   | 0, _ => outOfFuel default
   | n + 1, isConst => do
     let token ← peek
     let src ← getSrc
-    let lit (kind : ValueKind) : Prog Value := do
-      let _ ← next
-      pure (.mk kind token.value .nil (posOf src token))
     match token.kind with
-    | .bracketL => parseListWith (parseValueLiteral n isConst) n
-    | .braceL => parseObjectWith (parseValueLiteral n isConst) n
+    | .bracketL => parseListWith (parseValueLiteral n isConst) (n + 1)
+    | .braceL => parseObjectWith (parseValueLiteral n isConst) (n + 1)
     | .dollar =>
       if isConst then
         unexpectedError
@@ -75,11 +78,11 @@ def parseValueLiteral : Nat → Bool → Prog Value
       else
         let raw ← parseVariable
         pure (.mk .variable raw .nil (posOf src token))
-    | .int => lit .int
-    | .float => lit .float
-    | .string => lit .string
-    | .blockString => lit .block
-    | .name => lit (nameValueKind token.value)
+    | .int => litValue src token .int
+    | .float => litValue src token .float
+    | .string => litValue src token .string
+    | .blockString => litValue src token .block
+    | .name => litValue src token (nameValueKind token.value)
     | _ =>
       unexpectedError
       pure default
@@ -219,8 +222,8 @@ def parseSelection : Nat → Prog Selection
   | 0 => outOfFuel default
   | n + 1 => do
     let t ← peek
-    if t.kind = .spread then parseFragmentWith (parseSelection n) n
-    else parseFieldWith (parseSelection n) n
+    if t.kind = .spread then parseFragmentWith (parseSelection n) (n + 1)
+    else parseFieldWith (parseSelection n) (n + 1)
 
 /-- `parseRequiredSelectionSet` at top level -/
 def parseRequiredSelectionSet (n : Nat) : Prog Selections :=
@@ -305,7 +308,7 @@ def parseQueryDocument (n : Nat) : Prog QueryDoc := queryDocLoop n n { ops := []
 
 /-- the final state and document of `ParseQuery` (`limit = 0`) / `ParseQueryWithTokenLimit` -/
 def runQuery (limit : Nat) (inp : Bytes) : QueryDoc × PState :=
-  run (parseQueryDocument (fuelFor inp)) (PState.init limit 0 inp)
+  run limit (parseQueryDocument (fuelFor inp)) (PState.init 0 inp)
 
 /-- `ParseQuery` (`limit = 0`) / `ParseQueryWithTokenLimit` -/
 def parseQuery (limit : Nat) (inp : Bytes) : Result QueryDoc := Result.ofRun (runQuery limit inp)
